@@ -46,6 +46,16 @@ def _apply_perturb(data, p):
             return data
         i = idxs[n % len(idxs)]
         pl = bytearray(chunks[i][1])
+        if cid == b"SLnK":
+            # slot numbers size a list in the loader (it pads the source's table up to the
+            # slot): keep them small - any of -1, 0..8 - rather than up to 2**31
+            k = (off % len(pl)) // 4 * 4
+            if k + 4 <= len(pl):
+                pl[k : k + 4] = struct.pack("<i", -1 if byte == 0xFF else byte % 9)
+            chunks[i] = (cid, bytes(pl))
+            return chunkio.join(chunks)
+        if chunkio.is_container(bytes(pl)) and (off % len(pl)) in chunkio.alloc_field_offsets(bytes(pl)):
+            return data  # would resize an embedded pattern to up to 2**32 rows
         pl[off % len(pl)] = byte & 0xFF
         chunks[i] = (cid, bytes(pl))
         return chunkio.join(chunks)
